@@ -496,6 +496,33 @@ theorem put_blobOK (hash : Bytes → Digest) (k : Disk) (d : Digest) (size : Nat
   · rw [setBlob_other _ _ _ _ hd] at hf
     exact h d' f hf
 
+/-- whatever the source does, a `Put` under a negative size leaves the file as it was (refused), or empty -/
+theorem copyNamedNeg_file (refuse : Bool) (st : FileSt) (s : Script) :
+    run (copyNamedNegEffs refuse st s).1 st = st ∨ run (copyNamedNegEffs refuse st s).1 st = some [] := by
+  unfold copyNamedNegEffs
+  split
+  · left; rfl
+  · right
+    split
+    · cases st <;> simp [run, applyEff, truncTo, zeros]
+    · split <;> cases st <;> simp [run, applyEff, truncTo, zeros]
+
+theorem putNeg_blobOK (hash : Bytes → Digest) (refuse : Bool) (k : Disk) (d : Digest) (s : Script)
+    (h : BlobOK hash k) : BlobOK hash (putNeg refuse k d s).1 := by
+  intro d' f hf
+  unfold putNeg at hf
+  by_cases hd : d' = d
+  · subst hd
+    simp only [setBlob_same] at hf
+    rcases copyNamedNeg_file refuse (k.blob d') s with h1 | h1
+    · rw [h1] at hf; exact h d' f hf
+    · rw [h1] at hf; cases hf; left; rfl
+  · rw [setBlob_other _ _ _ _ hd] at hf
+    exact h d' f hf
+
+theorem edit_blob (k : Disk) (name data : Bytes) : (edit k name data).1.blob = k.blob := by
+  unfold edit; split <;> rfl
+
 def noChunk : Op → Bool
   | .chunk .. => false
   | _ => true
@@ -613,6 +640,12 @@ theorem stepOp_blobOK (hash : Bytes → Digest) (fixed zc : Bool) (k : Disk) (op
         · exact h
         · split <;> exact put_blobOK hash k _ _ _ h
   | chunk d size a b cd s => cases hn
+  | putNeg d s => exact putNeg_blobOK hash false k d s h
+  | edit name data =>
+    intro d' f hf
+    simp only [stepOp] at hf
+    rw [edit_blob] at hf
+    exact h d' f hf
 
 /-- **Every history.**  Starting from a disk whose blob files are each empty or correct (in particular the
     empty disk), after ANY sequence of Put / Import / Get / Link / Unlink / Resolve with arbitrary — faulty —
@@ -793,6 +826,12 @@ theorem history_manifests_confined (hash : Bytes → Digest) (fixed zc : Bool) :
           · exact h
           · split <;> exact h
     | chunk d size a b cd s => exact h
+    | putNeg d s => exact h
+    | edit name data =>
+      simp only [stepOp, edit]
+      cases hp : nameToPath name with
+      | none => exact h
+      | some want => exact manSet_safe k.mans want (some data) h (nameToPath_safe name want hp)
 
 /-! ## crash – restart – retry histories of one blob file -/
 
